@@ -10,8 +10,39 @@
    are checked on the implementation and the model for all orders of <= 3 requests at every boundary (and the
    model agrees with the implementation on every one of them). *)
 From Coq Require Import List String Bool ZArith.
-From Plumpy Require Import Val Mon PortModel Model Run LifeBook LifeSx LifeSteps.
+From Plumpy Require Import Val Mon PortModel Model Run LifeBook LifeSx LifeSteps LifeWake.
 Import ListNotations.
+
+(* A WAKE-UP IS NEVER LOST, IN EVERY RUN — any program, listener scripts (re-entrant pause / play / kill / resume / fail),
+   callbacks, any schedule of any length; hooks that do not raise.  The invariant W of Life/LifeWake.v: a suspended stepping
+   task is always going to be woken —
+     not started yet              : its first wake-up is in the loop's ready queue
+     await self._paused (f)       : a wake-up is queued, or f IS the current pause future of a live process
+     await the waiting future wid : a wake-up is queued, or wid IS the current, still pending waiting future
+     await sleep(0)               : a wake-up is queued
+     await an environment future  : a wake-up is queued, or that future has not completed. *)
+Theorem C06_suspended_task_is_woken :
+  forall c es w, cf_fault c = None -> run c es = Some w ->
+    match t0 w with
+    | PcNotStarted => wake_ready w
+    | PcAwaitPaused f => wake_ready w \/ (paused w = Some f /\ is_terminated w = false)
+    | PcInStep _ _ None => wake_ready w
+    | PcInStep _ _ (Some k) => wake_ready w \/ find (fun kw => Nat.eqb (fst kw) k) (exts w) = None
+    | PcAwaitWaiting wid => wake_ready w \/ waiting_on (st w) wid
+    | PcDone | PcFailed _ => True
+    end.
+Proof. exact run_wake. Qed.
+Print Assumptions C06_suspended_task_is_woken.
+
+(* in particular: once the wait the task is parked on has been resumed (or interrupted, or its state left) — however that is
+   interleaved with pause, play and the other requests — the task's wake-up is in the queue; and a task parked on a pause
+   future that play() has replaced or dropped has its wake-up queued *)
+Theorem C06_wake_up_not_lost :
+  forall c es w, cf_fault c = None -> run c es = Some w ->
+    (forall wid, t0 w = PcAwaitWaiting wid -> ~ waiting_on (st w) wid -> wake_ready w)
+    /\ (forall f, t0 w = PcAwaitPaused f -> paused w <> Some f -> wake_ready w).
+Proof. exact wake_up_not_lost. Qed.
+Print Assumptions C06_wake_up_not_lost.
 
 Theorem C06_resume_stores_the_value :
   forall fn m d wid v w,
